@@ -272,12 +272,9 @@ def afterEval (u : User α ε) (c : Cfg α) (s : St α) (f0Old : α) : Except ε
   if c.hasUpdate then do
     let s := s.logCall .update s.x
     let r ← u.update { x := s.x, f0 := s.f, f0Old := f0Old, grad := s.g, X := s.X, G := s.G }
-    let s := { s with f := r.f0, g := r.grad, G := r.G }
-    let (s, stop) := stopTests c s r.f0Old
-    if stop then pure (s, true)
-    else
-      let (X, G) := filterWolfe s.X s.G c.epsSY
-      pure ({ s with X := X, G := G }, false)
+    let fl := filterWolfe s.X r.G c.epsSY
+    let s := { s with f := r.f0, g := r.grad, X := fl.1, G := fl.2 }
+    pure (stopTests c s r.f0Old)
   else
     pure (stopTests c s f0Old)
 
@@ -290,6 +287,18 @@ def doCallback (u : User α ε) (c : Cfg α) (s : St α) : Except ε (St α) :=
     pure (if stopNow then { s with task := .userCallback, success := true } else s)
   else pure s
 
+/-- the memory update after an accepted step (main.py:609-624): the deques via `updateMats`;
+the matrices snapshot is rebuilt when the pair is accepted and — with an update function,
+whose rewrite of the stored gradients must not be lost — also when it is rejected (from the
+filtered history, or back to "no pair" when none is left). -/
+def memStep (c : Cfg α) (s : St α) : St α :=
+  let m := updateMats s.x s.g s.X s.G c.maxcor s.mats c.epsSY
+  let mats : Mats α :=
+    if m.2.2.2 then m.2.2.1
+    else if c.hasUpdate then (if s.X.length > 1 then some (s.X, s.G) else none)
+    else s.mats
+  { s with X := m.1, G := m.2.1, mats := mats }
+
 /-- an accepted step (main.py:570-645) -/
 def iterStep (u : User α ε) (c : Cfg α) (s : St α) (d : Vec α) (stp f0Old : α) :
     Except ε (St α × Flow) := do
@@ -298,9 +307,7 @@ def iterStep (u : User α ε) (c : Cfg α) (s : St α) (d : Vec α) (stp f0Old :
   let s := { s with x := x, f := e.2.1, g := e.2.2, sf := e.1 }
   let (s, stop) ← afterEval u c s f0Old
   if stop then pure (s, .brk) else
-  let (X, G, mats, _) := updateMats s.x s.g s.X s.G c.maxcor s.mats c.epsSY
-  let s := { s with X := X, G := G, mats := mats }
-  let s ← doCallback u c s
+  let s ← doCallback u c (memStep c s)
   pure ({ s with nit := s.nit + 1 }, .next)
 
 /-- one pass of the `while` loop body (main.py:498-645) -/
@@ -425,7 +432,8 @@ def applyUpdate0 (u : User α ε) (c : Cfg α) (s : St α) : Except ε (St α) :
   if c.hasUpdate then do
     let s := s.logCall .update s.x
     let r ← u.update { x := s.x, f0 := s.f, f0Old := s.f, grad := s.g, X := s.X, G := s.G }
-    pure { s with f := r.f0, g := r.grad, G := r.G }
+    let fl := if s.X.length > 0 then filterWolfe s.X r.G c.epsSY else (s.X, r.G)
+    pure { s with f := r.f0, g := r.grad, X := fl.1, G := fl.2 }
   else pure s
 
 /-- main.py:461-477: initial memory -/
